@@ -1,9 +1,11 @@
 ENGINES = [
-    {"name": "E1-enum", "path": "/verif/cmd, /verif/internal", "serves_properties": ["C06", "C07", "C08", "C12", "C13", "C16", "C17", "C18"],
+    {"name": "E1-enum", "path": "/verif/cmd, /verif/internal", "serves_properties": ["C06", "C07", "C08", "C11", "C12", "C13", "C16", "C17", "C18"],
      "kind_free_text": "bounded-exhaustive enumerator over explicit alphabets, every case executed on the real code and judged by a Go reference model"},
 ]
 NOTES = "All checks: ./run.sh <id> quick|thorough rebuilds the harness against /repo's working tree (replace directive) and rewrites evidence/<id>.json. known_findings.json is read-only at run time."
 NOT_YET = {}
+ENGINES.append({"name": "E4-mapseam", "path": "/verif/cmd/mapseam, /verif/overlays/verifrt.go.txt", "serves_properties": ["C10", "C11", "C17"],
+     "kind_free_text": "map-iteration seam: a go/types based rewriter turns every range over a map (and x/exp/maps.Keys/Values) in the generator packages of the tree under check into a harness-ordered iterator, applied with go build -overlay; the order is an environment answer the explorer controls (default ascending, deviations per dynamic range execution)"})
 ENGINES.append({"name": "E2-regen", "path": "/verif/internal/regen, /verif/drivers", "serves_properties": ["C01", "C02", "C03", "C04", "C05", "C09", "C14", "C15", "C20"],
      "kind_free_text": "regenerate-compile-drive pipeline: specs are generated in process by the generator of the tree under check into a scratch module, compiled with a driver and every case of the bounded space is executed on the regenerated code"})
 CHECKS["C12"] = dict(
@@ -119,4 +121,11 @@ CHECKS["C17"] = dict(
     technique="complete product of spelling toggles produced by an independent serializer x base documents, generated bytes compared; single-fault mutants x spellings for diagnostics",
     text="12 (quick) / ~45 (thorough) base documents (a custom-unmarshaler document with raw numbers 1.0 / 1e3 / 2^63-1 / 2^64 / -0, enums and defaults of every JSON type, every additionalProperties form, patternProperties, x-ogen-* extensions, examples; a third of the schema grammar; corpus specs) are each spelled in all 66 combinations of {JSON compact, JSON indented, YAML block, YAML flow} x {plain-when-safe, single, double quoting} x quoted keys x comments/blank lines x indent 2/4 x document marker x anchors/aliases, by a serializer that shares no code with the YAML library; the generated files must be byte-identical (792 full generations in quick). Invalid half: ~6900 single-fault mutants (15 kinds at every node of 3 documents) x 8 spellings must give the same diagnostic up to positions.",
     note="Trusted: internal/docmodel (own emitter). Scalars whose type depends on the YAML version (y, yes, on, ...) are quoted in the main run; the plain spelling is a labelled sub-run and a known finding. Diagnostics that differ between runs of one spelling are counted and left to C10. Key order is preserved by construction; random re-spellings are replaced by the complete toggle product.",
+)
+
+CHECKS["C11"] = dict(
+    category="fault_enumeration", engine="E1-enum",
+    technique="exhaustive single-fault mutation of every node of base documents (17 mutation kinds x 2 spellings) and all short byte strings, each executed in crash-isolated worker subprocesses; positions judged against spans recorded by an own serializer",
+    text="Every node of 7 (quick) / ~35 (thorough) base documents x 17 mutation kinds (retype to int/string/bool/null, empty map/seq/string, delete, -1, 2^64, 1e400, 1.5, dangling $ref, self $ref, $ref to parent, duplicated sibling key, 1000-deep nesting) x {indented JSON, block YAML}, every path key x 6 broken percent-escapes, and all byte strings of <= 4/5 symbols over an 18-symbol structural alphabet go through ogen.Parse + gen.NewGenerator (every fifth survivor also through the templates): 4.7e4 documents + 1.1e5 byte strings in quick. Workers are subprocesses: a fatal stack overflow or a hang (10 min watchdog) is attributed to the job in flight. Oracle: no panic, no crash, terminates; every reported position is inside the document and, for in-place mutations, on the mutated node / its key / an ancestor / a $ref or name-linked use site of it / a sibling keyword of the same object; JSON and YAML spellings designate the same node.",
+    note="Built with the map-order seam pinned to ascending order, so that diagnostics do not depend on Go's map randomisation (that dependence is C10's subject). Trusted: internal/docmodel spans. 'Bounded memory' is only 'the worker survived'; coverage-guided fuzzing is replaced by bounded-exhaustive byte strings; pairs of mutations are not enumerated.",
 )
